@@ -8,11 +8,26 @@ vlib.register_const_dump('kernel', 'device/video/console', os.path.join(H, 'zz_v
 M32 = (1 << 32) - 1
 
 
-def arg(rng, edge):
-    """a 32-bit argument from {0,1,edge-1,edge,edge+1,2^31,2^32-1,2^32-edge..,random}"""
+def wrap_values(rng, divs):
+    """32-bit values at which a product with a geometry constant d wraps: floor(k*2^32/d) + {-1,0,1,2}"""
+    ds = [d for d in divs if 2 <= d < (1 << 32)]
+    if not ds:
+        return None
+    d = rng.choice(ds)
+    k = rng.randrange(1, d) if d <= 64 or rng.random() < 0.5 else rng.choice([1, 2, d - 1, d // 2])
+    return ((k << 32) // d + rng.choice([-1, 0, 1, 1, 2])) & M32
+
+
+def arg(rng, edge, divs=()):
+    """a 32-bit argument from {0,1,edge-1,edge,edge+1,2^31,2^32-1,2^32-edge..,random} and, for every
+    constant d of the geometry that the driver may multiply the argument with, floor(k*2^32/d)+{-1,0,1,2}"""
     r = rng.random()
-    if r < 0.45:
+    if r < 0.4:
         return rng.randrange(0, edge + 2)
+    if r < 0.6 and divs:
+        v = wrap_values(rng, divs)
+        if v is not None:
+            return v
     return M32 & rng.choice([0, 1, max(edge - 1, 0), edge, edge + 1, edge + 2, 1 << 31, (1 << 31) - 1, M32, M32 - 1, M32 - edge, M32 - edge + 1,
                        (M32 - edge + 2) & M32, rng.randrange(0, 1 << 32), rng.randrange(0, 64)])
 
@@ -26,21 +41,57 @@ def colour(rng, text):
     return rng.randrange(0, 256) if r < 0.8 else rng.choice([0, 1, 7, 15, 16, 255])
 
 
-def gen_ops(rng, W, H, text, nops):
+def products(vals):
+    """the constants and their pairwise products (what a uint32 expression of the driver may multiply by)"""
+    vals = sorted(set(v for v in vals if v >= 2))
+    out = set(vals)
+    for i, u in enumerate(vals):
+        for v in vals[i:]:
+            if u * v < (1 << 32):
+                out.add(u * v)
+    return sorted(out)
+
+
+def gen_one(rng, kind, W, H, text, xdivs, ydivs):
+    """one operation of the given kind: 0 Write, 1 Fill, 2 Scroll, 3 SetFont, 4 SetLogo, 5 palette"""
+    if kind == 0:
+        if W >= 1 and H >= 1 and rng.random() < 0.6:
+            x, y = rng.randrange(1, W + 1), rng.randrange(1, H + 1)     # a cell of the grid
+        else:
+            x, y = arg(rng, W, xdivs), arg(rng, H, ydivs)
+        return [0, rng.choice([0x20, 0x41, 0, 255, rng.randrange(0, 256)]), colour(rng, text), colour(rng, text), x, y]
+    if kind == 1:
+        return [1, arg(rng, W, xdivs), arg(rng, H, ydivs), arg(rng, W, xdivs), arg(rng, H, ydivs), colour(rng, text), colour(rng, text)]
+    if kind == 2:
+        d = rng.choice([0, 1]) if rng.random() < 0.97 else rng.choice([2, 255])
+        return [2, d, rng.randrange(1, H + 1) if H >= 1 and rng.random() < 0.45 else arg(rng, H, ydivs)]
+    if kind == 3:
+        return [3]
+    if kind == 4:
+        return [4]
+    return [5, rng.choice([0, 1, 7, 15, 254, 255, rng.randrange(0, 256)]), rng.randrange(0, 256), rng.randrange(0, 256), rng.randrange(0, 256)]
+
+
+def gen_ops(rng, W, H, text, nops, xdivs=(), ydivs=()):
+    kinds = [0, 1, 2] if text else [0, 1, 2, 3, 4, 5]
+    base = lambda: rng.choice([0, 0, 1, 1, 2, 2] if text or rng.random() < 0.94 else [3, 4, 5])
+    if rng.random() < 0.4:
+        # statefulness: an operation, then operations of one other kind, then the SAME operation verbatim
+        a = gen_one(rng, rng.choice([0, 0, 0, 1, 2]), W, H, text, xdivs, ydivs)
+        between = rng.choice(kinds)
+        ops = list(a)
+        for _ in range(rng.choice([1, 1, 2])):
+            o = gen_one(rng, between, W, H, text, xdivs, ydivs)
+            if o[0] == 2 and H >= 1 and rng.random() < 0.8:
+                o[1], o[2] = rng.choice([0, 1]), rng.randrange(1, H + 1)     # an effective scroll
+            ops += o
+        ops += a
+        if rng.random() < 0.3:
+            ops += gen_one(rng, base(), W, H, text, xdivs, ydivs)
+        return ops
     ops = []
     for _ in range(nops):
-        r = rng.random()
-        if r < 0.35:
-            if W >= 1 and H >= 1 and rng.random() < 0.55:
-                x, y = rng.randrange(1, W + 1), rng.randrange(1, H + 1)     # a cell of the grid
-            else:
-                x, y = arg(rng, W), arg(rng, H)
-            ops += [0, rng.choice([0x20, 0x41, 0, 255, rng.randrange(0, 256)]), colour(rng, text), colour(rng, text), x, y]
-        elif r < 0.7:
-            ops += [1, arg(rng, W), arg(rng, H), arg(rng, W), arg(rng, H), colour(rng, text), colour(rng, text)]
-        else:
-            d = rng.choice([0, 1]) if rng.random() < 0.97 else rng.choice([2, 255])
-            ops += [2, d, rng.randrange(1, H + 1) if H >= 1 and rng.random() < 0.5 else arg(rng, H)]
+        ops += gen_one(rng, base(), W, H, text, xdivs, ydivs)
     return ops
 
 
@@ -52,7 +103,7 @@ def gen_vga(rng):
         W, H = rng.choice([(1, 1), (1, rng.randrange(1, 9)), (rng.randrange(1, 9), 1), (2, 2)])
     else:
         W, H = rng.randrange(1, 13), rng.randrange(1, 11)
-    return [0, W, H, rng.randrange(0, 4096)] + gen_ops(rng, W, H, True, rng.randrange(1, 5))
+    return [0, W, H, rng.randrange(0, 4096)] + gen_ops(rng, W, H, True, rng.randrange(1, 5), products([W, H, 2]), products([W, H, 2]))
 
 
 def masks_for(rng, bpp):
@@ -126,7 +177,10 @@ def gen_vesa(rng):
         pitch = W * bytespp - 1          # pitch below the row size: outside the quantifier
     edge_w, edge_h = (W // gw if gw else 0), ((H - logoh) // gh if gh and H >= logoh else 0)
     hdr = [1, W, H, bpp, pitch] + masks_for(rng, bpp) + [logoh, fkind, gw, gh, bpr, rng.randrange(0, 4096), rng.randrange(0, 4096), rng.randrange(0, 4096)]
-    return hdr + gen_ops(rng, edge_w, edge_h, False, rng.randrange(1, 4))
+    # constants the driver multiplies a column / width (resp. line / height / line count) argument with
+    xdivs = products([gw, bytespp, edge_w, W]) + [pitch]
+    ydivs = products([gh, pitch, edge_h]) + [H, gh * pitch * max(edge_h, 1)]
+    return hdr + gen_ops(rng, edge_w, edge_h, False, rng.randrange(1, 4), xdivs, ydivs)
 
 
 class C19(flow.Spec):
@@ -136,7 +190,9 @@ class C19(flow.Spec):
     pkg = 'device/video/console'
     harness = [os.path.join(H, 'zz_verif_c19_test.go'), os.path.join(H, 'zz_verif_c19_vesa_test.go'), os.path.join(H, 'zz_verif_consts_test.go')]
     test = 'TestVerifC19$'
-    rule = ('one console per case + 1..4 operations (Write / Fill / Scroll); text mode: 1x1, 1xN, Nx1, 2x2, 80x25, random <= 12x10; '
+    rule = ('one console per case + 1..5 operations (Write / Fill / Scroll; framebuffer also SetFont / SetLogo / SetPaletteColor); 40% of the histories repeat an earlier operation verbatim after operations of one other kind (statefulness); '
+            'arguments also floor(k*2^32/d)+{-1,0,1,2} for every constant d of the geometry the driver multiplies with (glyph width/height, bytes per pixel, pitch, width, height, grid size) and their pairwise products; '
+            'text mode: 1x1, 1xN, Nx1, 2x2, 80x25, random <= 12x10; '
             'framebuffer: depth 8/15/16/24/32 (few invalid), colour-mask layouts (standard, random inside the pixel, few outside), '
             'synthetic fonts 8..16 wide (few outside) and the three shipped fonts, grids 1x1..4x4 with right/bottom margins, logo rows 0..11 / 64 / 96 / 128, '
             'pitch = row bytes or row bytes + 1..9 padding; arguments from {0,1,edge-1,edge,edge+1,edge+2,2^31-1,2^31,2^32-edge..,2^32-2,2^32-1,small,random 32-bit}; '
@@ -151,7 +207,7 @@ class C19(flow.Spec):
                'everything else (write_cell, fill_clip, scroll_lines, no_escape, grid refinement; both consoles) is proved in full']
 
     def gen_cases(self, rng, tier):
-        n = {'quick': 1500, 'thorough': 30000, 'search': 3000}[tier]
+        n = {'quick': 1100, 'thorough': 25000, 'search': 3000}[tier]
         out = []
         for _ in range(n):
             if rng.random() < 0.4:
@@ -181,7 +237,7 @@ def split(nums):
     ops = []
     i = 0
     while i < len(rest):
-        n = {0: 6, 1: 7, 2: 3}.get(rest[i])
+        n = {0: 6, 1: 7, 2: 3, 3: 1, 4: 1, 5: 5}.get(rest[i])
         if n is None or i + n > len(rest):
             break
         ops.append(rest[i:i + n]); i += n
@@ -201,8 +257,14 @@ def explain(nums):
             s.append('Write(ch=%#x,fg=%d,bg=%d,x=%d,y=%d)' % tuple(o[1:]))
         elif o[0] == 1:
             s.append('Fill(x=%d,y=%d,w=%d,h=%d,fg=%d,bg=%d)' % tuple(o[1:]))
-        else:
+        elif o[0] == 2:
             s.append('Scroll(dir=%d,lines=%d)' % tuple(o[1:]))
+        elif o[0] == 3:
+            s.append('SetFont(same font)')
+        elif o[0] == 4:
+            s.append('SetLogo(same logo)')
+        else:
+            s.append('SetPaletteColor(%d, RGB %d,%d,%d)' % tuple(o[1:]))
     return ' ; '.join(s)
 
 
